@@ -194,6 +194,67 @@ theorem C03_aave_borrow_net_value (P L V : String → Rat) (toks : List String) 
     (by rw [hV st hst, htok]; ring) toks hnd
   rw [this]; simp
 
+/-- **supply: net value within the wallet dust** at any fixed non-negative price vector. -/
+theorem C03_aave_supply_net_value (P L V : String → Rat) (toks : List String) (hnd : toks.Nodup)
+    {s s' : St} {tok : String} {amount : Rat} {coll : Bool} (h : supply aaveExact env tok amount coll s = (.ok (), s'))
+    (hP : 0 ≤ P tok) (hL : ∀ st, env.statusOf tok = .ok st → L tok = st.liqIdx) :
+    ∃ b, AList.get? s.wallet tok = some b ∧
+      |aaveNetValue P L V toks s'.core - aaveNetValue P L V toks s.core| ≤ P tok * (assetDust * |b|) := by
+  obtain ⟨st, b, δ, hst, hwb, hδ, htok, hoth⟩ := C03_aave_supply_conserves h
+  have := aave_netValue_change P L V s.core s'.core tok δ (fun t ht => hoth t _ _ ht)
+    (by rw [hL st hst]; exact htok _) toks hnd
+  refine ⟨b, hwb, ?_⟩
+  rw [this]
+  split
+  · simp only [add_sub_cancel_left, abs_mul, abs_of_nonneg hP]
+    exact mul_le_mul_of_nonneg_left hδ hP
+  · simp only [add_zero, sub_self, abs_zero]
+    exact mul_nonneg hP (mul_nonneg (le_of_lt (by unfold assetDust Gen.assetSubDust; norm_num)) (abs_nonneg _))
+
+/-- **withdraw never raises the net value**, and lowers it by less than `price × MIN_TOKEN_VALUE × index`. -/
+theorem C03_aave_withdraw_net_value (hI : AavePosIdx env) (P L V : String → Rat) (toks : List String) (hnd : toks.Nodup)
+    {s s' : St} (hs : Good aaveExact env s) {tok : String} {amount? : Option Rat}
+    (h : withdraw aaveExact env tok amount? s = (.ok (), s'))
+    (hP : 0 ≤ P tok) (hL : ∀ st, env.statusOf tok = .ok st → L tok = st.liqIdx) :
+    aaveNetValue P L V toks s'.core ≤ aaveNetValue P L V toks s.core ∧
+    ∃ st, env.statusOf tok = .ok st ∧
+      aaveNetValue P L V toks s.core - aaveNetValue P L V toks s'.core ≤ P tok * (Gen.aaveMinTokenValue * st.liqIdx) := by
+  obtain ⟨st, δ, hst, hle, hgt, htok, hoth⟩ := C03_aave_withdraw_conserves hI hs h
+  have := aave_netValue_change P L V s.core s'.core tok δ (fun t ht => hoth t _ _ ht)
+    (by rw [hL st hst]; exact htok _) toks hnd
+  have hIpos : 0 < st.liqIdx := (hI tok st hst).1
+  rw [this]
+  split
+  · refine ⟨by nlinarith [mul_nonneg hP (neg_nonneg.mpr hle)], st, hst, ?_⟩
+    have : P tok * (-δ) ≤ P tok * (Gen.aaveMinTokenValue * st.liqIdx) :=
+      mul_le_mul_of_nonneg_left (by linarith) hP
+    linarith
+  · refine ⟨by simp, st, hst, ?_⟩
+    simp only [add_zero, sub_self]
+    exact mul_nonneg hP (le_of_lt (mul_pos aave_minToken_pos hIpos))
+
+/-- **repay (cash) raises the net value by less than the clamp quantum plus the wallet dust**. -/
+theorem C03_aave_repay_net_value (hI : AavePosIdx env) (P L V : String → Rat) (toks : List String) (hnd : toks.Nodup)
+    {s s' : St} (hs : Good aaveExact env s) {tok : String} {amount? : Option Rat} {collTok? : Option String}
+    (h : repay aaveExact env tok amount? false collTok? s = (.ok (), s'))
+    (hP : 0 ≤ P tok) (hV : ∀ st, env.statusOf tok = .ok st → V tok = st.varIdx) :
+    ∃ st b, env.statusOf tok = .ok st ∧ AList.get? s.wallet tok = some b ∧
+      aaveNetValue P L V toks s'.core - aaveNetValue P L V toks s.core ≤
+        P tok * (assetDust * |b| + Gen.aaveMinTokenValue * st.varIdx) := by
+  obtain ⟨st, b, δw, δc, hst, hwb, hδw, hδc, htok, hoth⟩ := C03_aave_repay_conserves hI hs h
+  have := aave_netValue_change P L V s.core s'.core tok (δw + δc) (fun t ht => hoth t _ _ ht)
+    (by rw [hV st hst, htok]; ring) toks hnd
+  have hIpos : 0 < st.varIdx := (hI tok st hst).2
+  refine ⟨st, b, hst, hwb, ?_⟩
+  rw [this]
+  have hδw' : δw ≤ assetDust * |b| := le_trans (le_abs_self _) hδw
+  split
+  · simp only [add_sub_cancel_left]
+    exact mul_le_mul_of_nonneg_left (by linarith) hP
+  · simp only [add_zero, sub_self]
+    exact mul_nonneg hP (add_nonneg (mul_nonneg (le_of_lt (by unfold assetDust Gen.assetSubDust; norm_num)) (abs_nonneg _))
+      (le_of_lt (mul_pos aave_minToken_pos hIpos)))
+
 /-- **a rejected operation changes no holding** (C04), hence no value. -/
 theorem C03_aave_rejected_conserves {cx : ACtx} (s : St) (hs : Good cx env s) (op : Op) (hu : op ≠ .update) (e : Err)
     (h : (step cx env s op).1 = .error e) (P L V : String → Rat) (toks : List String) :
